@@ -9,6 +9,7 @@ import (
 	"os"
 	"path/filepath"
 	"runtime"
+	"strings"
 	"sync"
 	"sync/atomic"
 	"syscall"
@@ -70,6 +71,8 @@ type StalledCase struct {
 	Index   int64   `json:"index"`
 	Seconds float64 `json:"seconds"`
 	Stack   string  `json:"stack,omitempty"`
+	// Deadlock: the stall was classified as a deadlock inside the library and recorded as a violation
+	Deadlock bool `json:"deadlock,omitempty"`
 }
 
 type shardStats struct {
@@ -183,7 +186,7 @@ func (s *shardStats) record(p *Prop, class string, key []byte, o *Obs) {
 // death of the process (worker-goroutine panic, fatal runtime error, kill).
 
 type slot struct {
-	seq     atomic.Uint64 // first field and an atomic type: 64-bit aligned on 32-bit targets too
+	seq     atomic.Uint64            // first field and an atomic type: 64-bit aligned on 32-bit targets too
 	started [maxWorkers]atomic.Int64 // unix nanoseconds at which the worker's current case began (0: idle)
 	index   [maxWorkers]atomic.Int64
 	mem     []byte
@@ -276,7 +279,7 @@ func RunChild(p *Prop, tier string, seed int64, shard, nshards int, build, dir s
 	g := &Gen{Tier: tier, Seed: seed, Shard: shard, NShards: nshards, Build: build,
 		Rng: SubRng(seed, p.ID, fmt.Sprint(shard)), prop: p, st: st, slot: sl, from: envInt("VERIF_FROM", 0)}
 	t0 := time.Now()
-	go stallMonitor(p, tier, sl, st, base, t0)
+	go stallMonitor(p, g, tier, sl, st, base, t0)
 	if shard%4 == 3 {
 		// GC timing as a workload dimension: every fourth shard collects garbage every 20 ms, so that pools are
 		// emptied, finalizers run and weak caches are dropped in the middle of call sequences
@@ -298,6 +301,9 @@ func RunChild(p *Prop, tier string, seed int64, shard, nshards int, build, dir s
 			go func(w int) {
 				defer wg.Done()
 				for it := range g.work {
+					for g.pause.Load() {
+						time.Sleep(20 * time.Millisecond)
+					}
 					g.run(w, it.class, it.key, it.idx)
 				}
 			}(w)
@@ -332,7 +338,7 @@ func RunChild(p *Prop, tier string, seed int64, shard, nshards int, build, dir s
 // partial result of the shard (with the stalled case) and ends the process with exit status 4. The
 // supervisor reports the case as INCONCLUSIVE and restarts the shard behind it. The limit is a generous
 // wall-clock bound and never the source of a violation verdict.
-func stallMonitor(p *Prop, tier string, sl *slot, st *shardStats, base string, t0 time.Time) {
+func stallMonitor(p *Prop, g *Gen, tier string, sl *slot, st *shardStats, base string, t0 time.Time) {
 	limit := p.StallQuick
 	if tier == "thorough" {
 		limit = p.StallThorough
@@ -351,6 +357,9 @@ func stallMonitor(p *Prop, tier string, sl *slot, st *shardStats, base string, t
 		if c < minLimit {
 			minLimit = c
 		}
+	}
+	if p.DeadlockIsViolation && deadlockAfter < minLimit {
+		minLimit = deadlockAfter
 	}
 	for {
 		time.Sleep(500 * time.Millisecond)
@@ -373,7 +382,17 @@ func stallMonitor(p *Prop, tier string, sl *slot, st *shardStats, base string, t
 			if c, ok := p.StallClass[class]; ok && envInt("VERIF_STALL", 0) == 0 {
 				lim = c
 			}
-			if now-t < int64(lim)*int64(time.Second) {
+			deadlock := ""
+			if p.DeadlockIsViolation && now-t >= int64(deadlockAfter)*int64(time.Second) && now-t < int64(lim)*int64(time.Second) {
+				// examine the long-running case: start no new case, wait for the other judging goroutines
+				// to finish theirs, then look at the goroutines inside the library
+				g.pause.Store(true)
+				deadlock = examineDeadlock(sl, w, t)
+				g.pause.Store(false)
+				if deadlock == "" {
+					continue
+				}
+			} else if now-t < int64(lim)*int64(time.Second) {
 				continue
 			}
 			buf := make([]byte, 1<<20)
@@ -382,7 +401,13 @@ func stallMonitor(p *Prop, tier string, sl *slot, st *shardStats, base string, t
 			st.res.WallS = time.Since(t0).Seconds()
 			st.res.OutDigest = hex.EncodeToString(st.digest[:])
 			st.res.Stalled = &StalledCase{Class: class, KeyHex: hex.EncodeToString(key), Index: idx,
-				Seconds: float64(now-t) / 1e9, Stack: trimStack(string(buf))}
+				Seconds: float64(time.Now().UnixNano()-t) / 1e9, Stack: trimStack(string(buf)), Deadlock: deadlock != ""}
+			if deadlock != "" {
+				st.res.ViolTotal++
+				st.res.Violations = append(st.res.Violations, Violation{Class: class, VClass: "deadlock", KeyHex: hex.EncodeToString(key),
+					Message: fmt.Sprintf("the call has not returned after %d s and cannot return: every goroutine that is inside the library is blocked on synchronisation, unchanged over three goroutine dumps one second apart while nothing else was running:\n%s", (time.Now().UnixNano()-t)/1e9, deadlock),
+					Input:   render(p, class, key), Shard: st.res.Shard, Build: st.res.Build})
+			}
 			fb := make([]byte, 0, 8*len(st.fps))
 			var b [8]byte
 			for fp := range st.fps {
@@ -412,3 +437,100 @@ func readSlotMem(m []byte) []inflightCase {
 
 // Fingerprint is the 64-bit fingerprint of a case (for selectors that must be a function of the case).
 func Fingerprint(class string, key []byte) uint64 { return fingerprint(class, key) }
+
+// deadlockAfter is the age (seconds) of a case from which the deadlock examination runs.
+const deadlockAfter = 20
+
+const libraryPath = "github.com/wollac/iota-crypto-demo/"
+
+var blockedStates = []string{"semacquire", "sync.Mutex.Lock", "sync.RWMutex.Lock", "sync.RWMutex.RLock", "chan receive", "chan send",
+	"select", "sync.WaitGroup.Wait", "sync.Cond.Wait"}
+
+// examineDeadlock returns a description (the blocked goroutines) if the case of worker w that began at t is
+// deadlocked inside the library, "" otherwise (case finished, something inside the library can still run, or
+// the picture changes).
+func examineDeadlock(sl *slot, w int, t int64) string {
+	// quiescence: every other worker idle (they finish their cases; new ones are not started)
+	for wait := 0; ; wait++ {
+		busy := false
+		now := time.Now().UnixNano()
+		for o := 0; o < maxWorkers; o++ {
+			// another worker whose case is just as old is examined together with this one
+			if so := sl.started[o].Load(); o != w && so != 0 && now-so < int64(deadlockAfter)*int64(time.Second) {
+				busy = true
+			}
+		}
+		if !busy {
+			break
+		}
+		if wait > 600 || sl.started[w].Load() != t { // another case runs for more than 60 s: not examinable now
+			return ""
+		}
+		time.Sleep(100 * time.Millisecond)
+	}
+	prev := ""
+	for k := 0; k < 3; k++ {
+		if k > 0 {
+			time.Sleep(time.Second)
+		}
+		if sl.started[w].Load() != t {
+			return ""
+		}
+		buf := make([]byte, 1<<22)
+		buf = buf[:runtime.Stack(buf, true)]
+		var sig []string
+		for _, gr := range strings.Split(string(buf), "\n\n") {
+			if !strings.Contains(gr, libraryPath) {
+				continue
+			}
+			head := gr
+			if i := strings.IndexByte(gr, '\n'); i >= 0 {
+				head = gr[:i]
+			}
+			state := ""
+			if a, b := strings.IndexByte(head, '['), strings.IndexByte(head, ']'); a >= 0 && b > a {
+				state = head[a+1 : b]
+			}
+			if i := strings.IndexByte(state, ','); i >= 0 {
+				state = state[:i] // drop "N minutes"
+			}
+			blocked := false
+			for _, bs := range blockedStates {
+				if state == bs || strings.HasPrefix(state, bs+" ") {
+					blocked = true
+				}
+			}
+			if !blocked {
+				return "" // something inside the library is running, runnable, sleeping or in a system call
+			}
+			// the goroutine number and the frames, without the "[state, N minutes]" part
+			sig = append(sig, strings.SplitN(head, " [", 2)[0]+" ["+state+"]"+gr[len(head):])
+		}
+		if len(sig) == 0 {
+			return "" // nothing is inside the library: the harness itself is waiting
+		}
+		cur := strings.Join(sig, "\n\n")
+		if k > 0 && stripAddrs(cur) != stripAddrs(prev) {
+			return ""
+		}
+		prev = cur
+	}
+	return trimStack(prev)
+}
+
+// stripAddrs removes the argument values and pc offsets of a goroutine dump (they do not change for a blocked
+// goroutine, but the comparison should not depend on how the runtime prints them).
+func stripAddrs(s string) string {
+	var sb strings.Builder
+	for _, ln := range strings.Split(s, "\n") {
+		if i := strings.Index(ln, "("); i >= 0 && !strings.HasPrefix(ln, "\t") {
+			ln = ln[:i]
+		}
+		if i := strings.Index(ln, " +0x"); i >= 0 {
+			ln = ln[:i]
+		}
+		sb.WriteString(ln)
+		sb.WriteByte('\n')
+	}
+	return sb.String()
+}
